@@ -42,6 +42,8 @@ def tags(spec, cfg=None):
             out.append("reshape-after-" + direct["code"])
         if direct is not None and direct["code"] in ("RESHAPE", "SQUEEZE", "EXPAND_DIMS"):
             out.append(o["code"] + "-after-reshape")
+        if o["code"] == "MEAN" and direct is not None and direct["code"] == "PAD":
+            out.append("pad-feeds-mean")
         if o["code"] == "RESIZE_NEAREST_NEIGHBOR" and f.get("AlignCorners"):
             out.append("resize-nn-align-corners")
         if o["code"] == "CONCATENATION" and len(set(o["inputs"])) < len(o["inputs"]):
